@@ -6,4 +6,10 @@ mkdir -p .build evidence
 gcc -O2 -fPIC -shared -w -o .build/fsshim.so shim/fsshim.c -ldl
 CARGO_NET_OFFLINE=true cargo build --release --offline --features verif-hooks --manifest-path /repo/Cargo.toml --target-dir .build/target --bin breadlog \
   || CARGO_NET_OFFLINE=true cargo build --release --offline --manifest-path /repo/Cargo.toml --target-dir .build/target --bin breadlog
+# log rlib (feature kv) for the C09 programs
+mkdir -p .build/c09
+LOGSRC=$(ls -d $HOME/.cargo/registry/src/*/log-0.4.22/src/lib.rs 2>/dev/null | head -1)
+if [ -n "$LOGSRC" ]; then
+  rustc --crate-type rlib --crate-name log --edition 2021 --cfg 'feature="kv"' --cfg 'feature="std"' -O --cap-lints allow "$LOGSRC" -o .build/c09/liblog.rlib
+fi
 echo setup ok
